@@ -289,6 +289,7 @@ func vReplayFile[C any](t *testing.T, prop, test, path string, run func(tb rapid
 	if reps < 1 {
 		reps = 1
 	}
+	reps = vEnvInt("VERIF_REPLAY_REPS", reps)
 	for i := 0; i < reps; i++ {
 		vSetCurrent(prop, test, c, opts.CurFile)
 		run(t, c)
